@@ -75,6 +75,8 @@ pub enum Op {
     /// `advance_to(end of the k-th match of the immediately preceding peek)`.
     AdvanceToPeeked { it: usize, k: usize },
     SetOffset { it: usize, offset: usize },
+    /// the consuming form in the middle of a history: `it = it.with_offset(offset)`
+    WithOffsetMid { it: usize, offset: usize },
     SetModeIter { it: usize, mode: usize },
     SetModeScanner { sc: usize, mode: usize },
     Position { it: usize, offset: usize },
@@ -102,6 +104,7 @@ impl Op {
             Op::PeekN { .. } => "peek_n",
             Op::AdvanceToPeeked { .. } => "advance_to",
             Op::SetOffset { .. } => "set_offset",
+            Op::WithOffsetMid { .. } => "with_offset_mid",
             Op::SetModeIter { .. } => "set_mode_iter",
             Op::SetModeScanner { .. } => "set_mode_scanner",
             Op::Position { .. } => "position",
@@ -123,6 +126,7 @@ impl Op {
             | Op::PeekN { it, .. }
             | Op::AdvanceToPeeked { it, .. }
             | Op::SetOffset { it, .. }
+            | Op::WithOffsetMid { it, .. }
             | Op::SetModeIter { it, .. }
             | Op::Position { it, .. }
             | Op::ModeQuery { it }
